@@ -2,6 +2,7 @@ package main
 
 import (
 	"fmt"
+	"regexp"
 	"runtime/debug"
 	"sort"
 	"strings"
@@ -85,6 +86,8 @@ type Host struct {
 	RunawayBudget    int
 	TotalBudget      int
 	CancelAtCall     int // cancel the context from inside host call number N (1-based), 0 = never
+	PanicAtCall      int // panic inside host call number N (1-based, any host function), 0 = never
+	OnFault          func()
 	SlowTicks        int64
 	InHost           bool
 	CancelledInHost  bool
@@ -127,6 +130,13 @@ func (h *Host) enter(name string, args []object.Object) {
 		}
 		h.InHost = false
 	}
+	if h.PanicAtCall > 0 && h.Calls == h.PanicAtCall {
+		if h.OnFault != nil {
+			h.OnFault()
+		}
+		h.Fired["host-panic"]++
+		panic("boom from host function")
+	}
 	var sb strings.Builder
 	sb.WriteString(name)
 	sb.WriteByte('(')
@@ -154,7 +164,7 @@ func (h *Host) install(e *evalfilter.Eval) {
 	})
 	e.AddFunction("tick", func(args []object.Object) object.Object {
 		h.enter("tick", args)
-		return &object.Boolean{Value: true}
+		return &object.Void{}
 	})
 	e.AddFunction("maybe", func(args []object.Object) object.Object {
 		v := false
@@ -168,6 +178,9 @@ func (h *Host) install(e *evalfilter.Eval) {
 		h.enter("boom", args)
 		h.nBoom++
 		if h.BoomAt > 0 && h.nBoom == h.BoomAt {
+			if h.OnFault != nil {
+				h.OnFault()
+			}
 			h.Fired["host-panic"]++
 			panic("boom from host function")
 		}
@@ -177,6 +190,9 @@ func (h *Host) install(e *evalfilter.Eval) {
 		h.enter("hnil", args)
 		h.nNil++
 		if h.NilAt > 0 && h.nNil == h.NilAt {
+			if h.OnFault != nil {
+				h.OnFault()
+			}
 			h.Fired["host-nil"]++
 			return nil
 		}
@@ -499,6 +515,51 @@ func genObject(c *verifsim.Chooser) (interface{}, string) {
 		m["Items"] = items
 		return m, "json" + desc
 	}
+}
+
+var (
+	reParams  = regexp.MustCompile(`function\s+\w+\s*\(([^)]*)\)`)
+	reLocal   = regexp.MustCompile(`local\s+(\w+)`)
+	reForeach = regexp.MustCompile(`foreach\s+(\w+)(?:\s*,\s*(\w+))?\s+in\b`)
+	reAssign  = regexp.MustCompile(`(?:^|[^\w"])([A-Za-z_]\w*)\s*(?:=[^=]|\+\+|--|\+=|-=|\*=|/=)`)
+)
+
+// analyseNames classifies the identifiers a script writes: names that only
+// ever live in a local scope (parameters, locals, loop variables) and names
+// that are global.
+func analyseNames(text string) (globals, scoped []string) {
+	sc := map[string]bool{}
+	for _, m := range reParams.FindAllStringSubmatch(text, -1) {
+		for _, p := range strings.Split(m[1], ",") {
+			if p = strings.TrimSpace(p); p != "" {
+				sc[p] = true
+			}
+		}
+	}
+	for _, m := range reLocal.FindAllStringSubmatch(text, -1) {
+		sc[m[1]] = true
+	}
+	for _, m := range reForeach.FindAllStringSubmatch(text, -1) {
+		sc[m[1]] = true
+		if m[2] != "" {
+			sc[m[2]] = true
+		}
+	}
+	gl := map[string]bool{}
+	for _, m := range reAssign.FindAllStringSubmatch(text, -1) {
+		if !sc[m[1]] && m[1] != "local" {
+			gl[m[1]] = true
+		}
+	}
+	for k := range gl {
+		globals = append(globals, k)
+	}
+	for k := range sc {
+		scoped = append(scoped, k)
+	}
+	sort.Strings(globals)
+	sort.Strings(scoped)
+	return
 }
 
 func joinTrace(t []string) string { return strings.Join(t, ";") }
